@@ -135,6 +135,41 @@ def short_write_runs(ctx):
         ctx.violation({"kind": "output-failure-mishandled", "problems": probs[:4], "note": "ulimit -f 2 with SIGXFSZ ignored: writes beyond 1 KiB are cut short, then fail with EFBIG"})
 
 
+def backup_file_faults(ctx):
+    """fixed fault positions that run first (seeded C18-b: the result of writing a quilt backup file dropped): the write
+    of the content of a backup file and the fchmod on it fail - exit status 1, a message, nothing recorded; with one
+    and two threads, for a push that succeeds under --backup always and for one that stops early under onfail"""
+    good = b"--- a/f\n+++ b/f\n@@ -1,2 +1,2 @@\n-a\n+A\n b\n"
+    bad = b"--- a/g\n+++ b/g\n@@ -1 +1 @@\n-does not match\n+y\n"
+    probs = []
+    runs = 0
+    for backup, patches, series in (("A", {b"p1.patch": good}, b"p1.patch\n"),
+                                    ("O", {b"p1.patch": good, b"p2.patch": bad}, b"p1.patch\np2.patch\n")):
+        w = {"files": {b"f": (b"a\nb\n", 0o755), b"g": (b"x\n", 0o644)}, "dirs": [], "applied": None, "series": series, "patches": patches}
+        for th in (1, 2):
+            for call in ("write", "fchmod"):
+                cfg = l3gen.default_cfg()
+                cfg["threads"] = th
+                cfg["backup"] = backup
+                cfg["count"] = -1
+                cfg["extra"] = ["-q"]
+                rc, out, before, after = inject_run(ctx, w, cfg, call, ".pc/p1.patch/f", 1)
+                if not inject_run.fired:
+                    continue
+                runs += 1
+                if backup == "A":
+                    probs += check_outcome(rc, out, before, after, call, ".pc/p1.patch/f", "backup file, threads=%d backup=always" % th)
+                else:
+                    # the push fails anyway (exit 1); the failed backup must still be reported
+                    if rc != 1:
+                        probs.append("backup=onfail threads=%d: exit status %s when %s on the backup file failed" % (th, rc, call))
+                    if "p1.patch" not in out.decode("latin-1") and ".pc" not in out.decode("latin-1"):
+                        probs.append("backup=onfail threads=%d: no message about the backup file whose %s failed: %r" % (th, call, out[-200:]))
+    ctx.coverage["backup_file_fault_runs"] = runs
+    if probs:
+        ctx.violation({"kind": "output-failure-mishandled", "problems": probs[:4], "note": "fault injected with strace on write/fchmod of .pc/p1.patch/f"})
+
+
 def model_faults(ctx, w, cfg):
     """run the model with the fault at k = 0, 1, ... until it no longer fires -> [(k, result)]"""
     res = []
@@ -158,6 +193,7 @@ def run(ctx):
     total_pos = 0
     total_inj = 0
     short_write_runs(ctx)
+    backup_file_faults(ctx)
     for i in range(n):
         single = (i % 3 == 0)
         if single:
